@@ -232,6 +232,46 @@ func genC12Long(tier string, r *Rng, emit func(Case)) {
 		args := append(append(toks{}, t...), "0", itoa(r.Intn(4)), itoa(r.Pick([]int{0, 10, 700})))
 		emit(Case{Ver: ver, Op: "Fprint", Args: args})
 	}
+	// faults at and just after the points where the default buffer has filled up (4096 bytes and its multiples),
+	// in every failure mode, with and without rows
+	for _, ver := range allVers {
+		for _, rows := range []int{0, 10, 50} {
+			var t toks
+			t.s("G")
+			t.ints(nil)
+			t.ints(randDigits(r, r.Range(1, 6)))
+			t.i(1)
+			t.i(-1)
+			t.i(-1)
+			t.i(1)
+			t.i(0)
+			long := 4700
+			if tier == "thorough" {
+				long = 9000
+			}
+			t.i(long)
+			t.i(rows)
+			t.i(r.Pick([]int{0, 5}))
+			t.bool(r.Bool())
+			t.i('.')
+			t.bool(true)
+			t.bool(false)
+			t.i(0)
+			ks := []int{4096, 4097, 4096 + r.Range(2, 60)}
+			if tier == "thorough" {
+				ks = append(ks, 4095, 8192, 8193)
+				for d := 0; d < 70; d += 3 {
+					ks = append(ks, 4098+d, 8194+d)
+				}
+			}
+			for _, k := range ks {
+				for mode := 0; mode < 4; mode++ {
+					args := append(append(toks{}, t...), "0", itoa(mode), itoa(k))
+					emit(Case{Ver: ver, Op: "Fprint", Args: args})
+				}
+			}
+		}
+	}
 }
 
 // genPrintLazy: prints (no fault) of a few early positions of a LONG bounded view of an endless counted Number:
